@@ -1,5 +1,5 @@
 (* Extraction of the render engine (ExtrOcamlBasic only; N, positive, nat and Z stay Coq datatypes). *)
 Require Extraction.
 Require Import ExtrOcamlBasic.
-From Verif Require Import Bytes RendererM.
-Extraction "render_model.ml" r_op r0 w0 mkShown is_fault op_ok pathEscape queryEscape path_escape_quoted_bytes path_escape_unquoted_bytes query_escape_bytes.
+From Verif Require Import Bytes RendererM TCalcM TSrcM.
+Extraction "render_model.ml" r_op r0 w0 mkShown is_fault op_ok pathEscape queryEscape path_escape_quoted_bytes path_escape_unquoted_bytes query_escape_bytes build_and_run harness_conv mkMacro mkImport mkFile.
